@@ -87,7 +87,7 @@ def run(tier):
     cov['exhaustive'] = (tier == 'thorough')
     cov['rule'] = ('fault sequences = for each of 75 (scenario, input) pairs from spec/gen/MC_C19.tla (parse, assign, copy, move, push_back/insert with '
                    'reallocation, erase/insert/resize, merge, dump, binary round trips, JSONPath, JMESPath, pointer edits, flatten, compare, apply_patch, '
-                   'schema compile+validate, and 4 stateful-allocator scenarios), the n-th allocation of the operation window fails, for every n in '
+                   'schema compile+validate, rvalue / hinted merges, the insertion-ordered container through the same operations, and 4 stateful-allocator scenarios for the sorted and for the insertion-ordered container), the n-th allocation of the operation window fails, for every n in '
                    '1..N (N measured by a dry run; evenly thinned to at most maxn per pair in the quick tier); one forked execution each; non-trivial = n > 0')
     cov['samples'] = [{'scn': ex[1]['scn'], 'doc': ex[1]['doc'], 'n': ex[1]['n'], 'trace_head': ex[1]['trace'].split('\n')[:6]}] if len(ex) > 1 else []
     rep.assumptions += ['one-shot failures only; the injection window is the operation itself; allocations made by destructors (stack-safe flatten_and_destroy) are not failed (DESIGN 5/C19)',
